@@ -18,7 +18,8 @@ EXPLANATION = (
     "parse_terminated's separator argument; the `path` halves both take the attribute's path; the `tokens` halves accept the same argument shapes: "
     "nothing, or exactly one *parenthesised* group, rejecting `name = value` (the syn2 half is read arm by arm, the syn1 half through "
     "OptionalParenthesizedTokenStream::parse). R3: the three manifests wire syn1/syn2 to the same back-end in both crates and the both-enabled "
-    "configuration is a compile_error. R4 (thorough): rustc type-checks both configurations (`cargo check`), which the pinned suite never does for syn2.")
+    "configuration is a compile_error. R4 (thorough): rustc type-checks both configurations (`cargo check`), which the pinned suite never does for syn2. "
+    " R5: no syn expression / pattern node is constructed by the generator (syn 1 prints fields as given, syn 2 normalises). R6 imports C11.R4's bound-list rule.")
 NOT_DECIDED = ["behavioural agreement of syn 1.x and syn 2.x on the API calls both configurations share (parse, peek, Punctuated, …)",
                "wording of library-originated diagnostics"]
 
